@@ -126,6 +126,8 @@ def _corrupt(env, seed):
                         continue
                     walk(v, path + [k])
             elif isinstance(x, list):
+                if path and path[-1] in ("v", "l") and all(isinstance(v, int) for v in x):
+                    return     # the limbs of a constant: only value-level properties depend on them
                 for i, v in enumerate(x):
                     walk(v, path + [i])
             elif isinstance(x, (bool, int, str)):
